@@ -363,6 +363,10 @@ def build_harness(ck):
     srcs = [("harness", "C51/harness.cxx")] + \
            [(n, R + "/tfel-check/src/%sComparison.cxx" % n) for n in
             ("Absolute", "Relative", "RelativeAndAbsolute", "Mixed", "Area")] + \
+           [(n, R + "/tfel-check/src/%s.cxx" % n) for n in
+            # the interpolation used by AreaComparison does arithmetic: it must be compiled here with
+            # -ffp-contract=off too (the prebuilt libTFELCheck is built with -march=native and fuses a*b+c)
+            ("Linearization", "LinearInterpolation", "NoInterpolation")] + \
            [(n, R + "/mtest/src/%s.cxx" % n) for n in ("AnalyticalTest", "ReferenceFileComparisonTest")]
     with ThreadPoolExecutor(max_workers=4) as ex:
         futs = [ex.submit(ck.cxx, "c51_%s.o" % n, [s], flags=("-c",), includes=inc, sanitize=True) for n, s in srcs]
